@@ -523,7 +523,7 @@ macro_rules! rl_prop {
 }
 
 rl_prop!(C02, "C02", "scenario = window type, limit 1..4, period 20/50ms, timeout 0..3 periods, 2-12 callers arriving in bursts on/near period boundaries plus an idle gap and a burst, cancels while waiting, clock jumps; schedule seeded. Non-trivial: some caller was admitted after waiting or was rejected. Distinct = distinct event-log digest.");
-rl_prop!(C15, "C15", "same scenario space as C02. Non-trivial: some caller was admitted after waiting or was rejected. Distinct = distinct event-log digest.");
+rl_prop!(C15, "C15", "same scenario space as C02 (incl. limit usize::MAX, timeout Duration::MAX, shuffled builder calls with decoy values, a second service built from the same layer). Non-trivial: some caller was admitted after waiting or was rejected. Distinct = distinct event-log digest.");
 
 #[cfg(test)]
 mod tests {
